@@ -6,7 +6,7 @@ Keeps it as /verif/seeded/<name>/ (patch.diff, demo/, meta.json, detection.json)
 import json, os, shutil, subprocess, sys, time
 V = os.path.dirname(os.path.dirname(os.path.abspath(__file__)))
 wt, name, checks = sys.argv[1], sys.argv[2], sys.argv[3:]
-out = wt + "-out"
+out = os.environ.get("SEED_OUT", wt + "-out")
 env = dict(os.environ, GOFLAGS="-mod=mod", GOPROXY="off", GOSUMDB="off", GOTOOLCHAIN="local")
 def sh(cmd, cwd=None, e=None, timeout=3000):
     p = subprocess.run(["bash", "-c", cmd], cwd=cwd, env=e or env, stdout=subprocess.PIPE, stderr=subprocess.STDOUT, text=True, timeout=timeout, stdin=subprocess.DEVNULL)
@@ -27,7 +27,7 @@ rc, o = sh("python3 %s/lib/baseline.py %s" % (V, wt))
 res["baseline"] = o.strip().split("\n")[0]
 res["baseline_ok"] = rc == 0
 # 3. demo on the changed and on the unchanged tree
-demo = wt + "-demo"
+demo = os.environ.get("SEED_DEMO", wt + "-demo")
 if os.path.exists(os.path.join(demo, "run.sh")):
     cmd = "bash run.sh 2>&1 | tail -5"
 else:
